@@ -383,4 +383,45 @@ def pKeptX : FlatField := ⟨fileA, [], [7, 0], none, pKeptExt⟩
 def cKeptX : FlatField := ⟨fileA, cALocs, [7, 1], none, cKeptExt⟩
 theorem kept_paired : FieldPaired wCur wPrev cKeptX pKeptX := Or.inr ⟨by decide, by decide, rfl, rfl⟩
 
+
+/-! ### group / delimited encoded fields: witness `gPrev → gCur` (see the examples at the end of
+    Props/C03.lean for the source-level reading) -/
+
+def gE (fs : List Field) : File :=
+  { path := "g/e.proto", pkg := ["g"], syn := .editions, opts := [],
+    locs := [[4, 0], [4, 0, 2, 0], [4, 0, 2, 0, 6], [4, 0, 2, 1], [4, 0, 2, 1, 6], [4, 0, 2, 2], [4, 0, 2, 2, 6],
+             [4, 0, 2, 3], [4, 0, 2, 3, 6]],
+    messages := [.mk { info "M" with fields := fs } [], .mk (info "X") [], .mk (info "Y") []],
+    enums := [], services := [], extensions := [] }
+
+def gP (g fname : String) : File :=
+  { path := "g/p.proto", pkg := ["g"], syn := .proto2, opts := [],
+    locs := [[4, 0], [4, 0, 2, 0], [4, 0, 2, 0, 6], [4, 0, 3, 0]],
+    messages := [.mk { info "P" with fields :=
+      [{ fld 1 fname .group with typeName := ["g", "P", g], hasPresence := true }] } [.mk (info g) []]],
+    enums := [], services := [], extensions := [] }
+
+def gmsg (n : Int) (name : String) (k : Kind) (t : String) : Field :=
+  { fld n name .message with kind := k, typeName := ["g", t], hasPresence := true }
+
+def gPrev : Schema :=
+  [gE [gmsg 1 "a" .group "X", gmsg 2 "b" .message "X", gmsg 3 "c" .message "X"], gP "Grp1" "grp1"]
+def gCur : Schema :=
+  [gE [fld 9 "fresh" .int32, gmsg 1 "a" .group "Y", gmsg 2 "b" .group "X", gmsg 3 "c" .message "Y"], gP "Grp2" "grp2"]
+
+theorem gCur_wf : WF gCur := WF_of_wfB _ (by decide)
+
+def gpM : FlatMsg := msgOf gPrev ["g", "M"]
+def gcM : FlatMsg := msgOf gCur ["g", "M"]
+def gpP : FlatMsg := msgOf gPrev ["g", "P"]
+def gcP : FlatMsg := msgOf gCur ["g", "P"]
+
+theorem gM_paired (n : Int) (hp : fieldOf gpM n ∈ msgFields gpM) (hc : fieldOf gcM n ∈ msgFields gcM)
+    (hn : (fieldOf gcM n).field.number = (fieldOf gpM n).field.number) :
+    FieldPaired gCur gPrev (fieldOf gcM n) (fieldOf gpM n) :=
+  Or.inl ⟨gpM, gcM, by decide, by decide, by decide, hp, hc, hn⟩
+
+theorem gP_paired : FieldPaired gCur gPrev (fieldOf gcP 1) (fieldOf gpP 1) :=
+  Or.inl ⟨gpP, gcP, by decide, by decide, by decide, by decide, by decide, rfl⟩
+
 end BufProofs.Breaking.W
